@@ -196,6 +196,28 @@ def props_from_spec(props, spec, M):
     return out
 
 
+def delays_from_spec(delays, spec, M):
+    """delay family and parameter indices of the model job from the reaction *definition* (as for the mass-action
+    propensities): what the implementation's delay objects decoded is not trusted."""
+    if spec is None:
+        return delays
+    pi = M.get_params2index()
+    out = list(delays)
+    for j, r in enumerate(spec.get("reactions", [])):
+        if j >= len(out) or not isinstance(r, dict):
+            continue
+        d = r.get("delay")
+        if not d or d.get("type") in (None, "none"):
+            out[j] = ["none"]
+        elif d["type"] == "fixed" and isinstance(d.get("delay"), str):
+            out[j] = ["fixed", int(pi[d["delay"]])]
+        elif d["type"] == "gaussian" and isinstance(d.get("mean"), str) and isinstance(d.get("std"), str):
+            out[j] = ["gaussian", int(pi[d["mean"]]), int(pi[d["std"]])]
+        elif d["type"] == "gamma" and isinstance(d.get("k"), str) and isinstance(d.get("theta"), str):
+            out[j] = ["gamma", int(pi[d["k"]]), int(pi[d["theta"]])]
+    return out
+
+
 TWO_PI = 2.0 * 3.141592653589793238462643383279502884
 
 
@@ -216,12 +238,17 @@ def sim_job(M, kind, times, seed, dt, t0=0.0, safe=False, num="float", x0=None, 
     D = np.array(M.py_get_delay_update_array())
     st = M.__getstate__()
     rules = st[6]
+    if spec is not None and all(isinstance(r, dict) for r in spec.get("reactions", [])) and len(spec.get("reactions", [])) == U.shape[1]:
+        # the matrices of the model job from the reaction definition too (products - reactants with multiplicity)
+        sl_ = M.get_species_list()
+        U = np.array([[r["products"].count(s_) - r["reactants"].count(s_) for r in spec["reactions"]] for s_ in sl_], dtype=int).reshape(len(sl_), -1)
+        D = np.array([[list(r.get("dproducts", []) or []).count(s_) - list(r.get("dreactants", []) or []).count(s_) for r in spec["reactions"]] for s_ in sl_], dtype=int).reshape(len(sl_), -1)
     job = {"op": "sim", "num": num, "kind": kind, "nSpecies": int(U.shape[0]),
            "props": props_from_spec([dump_prop(q, enc) for q in M.get_propensities()], spec, M),
            "U": [[int(v) for v in U[:, j]] for j in range(U.shape[1])],
            "D": [[int(v) for v in D[:, j]] for j in range(D.shape[1])],
            "rules": [dump_rule(r, enc) for r in rules],
-           "delays": [dump_delay(d) for d in M.get_delays()],
+           "delays": delays_from_spec([dump_delay(d) for d in M.get_delays()], spec, M),
            "safe": bool(safe), "dt": enc(dt), "t0": enc(t0), "twoPi": enc(TWO_PI),
            "x0": [enc(v) for v in (x0 if x0 is not None else M.get_species_array())],
            "p": [enc(v) for v in M.get_parameter_values()],
